@@ -383,3 +383,28 @@ def run_lines(binary, lines, timeout=600, env=None):
     """Feed one request per line; returns list of output lines (same count expected by callers)."""
     rc, out, err = sh([binary], input="\n".join(lines) + "\n", timeout=timeout, env=env)
     return rc, out.split("\n")[:-1] if out.endswith("\n") else out.split("\n"), err
+
+
+class Interactive:
+    """A line-protocol process kept open: ask(line) -> answer line."""
+    def __init__(self, binary, env=None):
+        self.p = subprocess.Popen([binary], stdin=subprocess.PIPE, stdout=subprocess.PIPE, stderr=subprocess.PIPE, env=env)
+
+    def ask(self, line):
+        try:
+            self.p.stdin.write((line + "\n").encode())
+            self.p.stdin.flush()
+            r = self.p.stdout.readline()
+        except (BrokenPipeError, OSError):
+            r = b""
+        if not r:
+            err = self.p.stderr.read().decode("utf-8", "replace")
+            raise RuntimeError("driver died on %r: %s" % (line, err[-2000:]))
+        return r.decode("utf-8", "replace").rstrip("\n")
+
+    def close(self):
+        try:
+            self.p.stdin.close()
+            self.p.wait(timeout=10)
+        except Exception:
+            self.p.kill()
